@@ -175,7 +175,11 @@ func runBatch(c *hl.Ctx, batch []cfg, seqRepeats, concRepeats int) {
 	}
 	// separate processes: the CLI built from the tree under test
 	if bin := os.Getenv("C25_D2BIN"); bin != "" {
-		parallel(len(batch), 8, func(i int) {
+		ncli := len(batch)
+		if c.Quick() && ncli > 6 {
+			ncli = 6
+		}
+		parallel(ncli, 8, func(i int) {
 			p := batch[i]
 			var hs []string
 			for r := 0; r < 2; r++ {
@@ -254,7 +258,7 @@ func cli(bin, work string, p cfg, tag string) (string, error) {
 	}
 	defer os.Remove(in)
 	defer os.Remove(out)
-	args := []string{"--layout", p.engine, "--pad", "20"}
+	args := []string{"--layout", p.engine, "--pad", "20", "--bundle=false"}
 	if p.sketch {
 		args = append(args, "--sketch")
 	}
@@ -266,12 +270,13 @@ func cli(bin, work string, p cfg, tag string) (string, error) {
 	b, err := cmd.CombinedOutput()
 	if err != nil {
 		// a compile error is a legitimate (deterministic) outcome; strip the temp file name and timings
-		msg := strings.ReplaceAll(string(b), in, "IN")
+		msg := strings.ReplaceAll(string(b), "in-"+tag+".d2", "IN")
 		return "cli-fail: " + stripTimes(msg), nil
 	}
 	svg, err := os.ReadFile(out)
 	if err != nil {
-		return "", err
+		// e.g. a board without objects: the CLI exits 0 without writing the file
+		return "cli-no-output: " + stripTimes(strings.ReplaceAll(string(b), "in-"+tag+".d2", "IN")), nil
 	}
 	return string(svg), nil
 }
@@ -298,7 +303,7 @@ var corpus = []string{
 	"classes: {k: {style: {fill: blue; stroke-dash: 3}}}\na.class: k\nb.class: k\na -> b: {style.animated: true}\n",
 	"grid: {grid-rows: 2; a; b; c; d}\nn: {near: top-center}\n",
 	"s: {shape: sequence_diagram; a -> b: hi; b -> a: yo; a.t: {shape: rectangle}}\n",
-	"a: {icon: https://icons.terrastruct.com/essentials/004-picture.svg; shape: image}\nb.tooltip: tip\nc.link: https://d2lang.com\n",
+	"b.tooltip: tip\nc.link: https://d2lang.com\nd: {style.fill-pattern: dots}\ne: {style.double-border: true; shape: circle}\nb -> c -> d -> e\n",
 }
 
 func run(c *hl.Ctx) error {
@@ -319,11 +324,11 @@ func run(c *hl.Ctx) error {
 	}
 	runBatch(c, batch, seqR, concR)
 	c.Count("corpus")
-	n := c.Pick(22, 6000)
+	n := c.Pick(4, 6000)
 	sc := &totalgen.Screener{}
 	defer sc.Close()
 	batch = nil
-	for len(batch) < 16 && n > 0 {
+	for n > 0 {
 		p := genProg(r)
 		if oc := sc.Outcome(p.src, nil); oc != "graph" {
 			c.Count("screened-out:" + oc)
